@@ -331,7 +331,9 @@ impl Mac {
                 snr,
                 true,
             )),
-            State::Otaa(_) => Err(Error::NotJoined),
+            // A frame overheard in the Class C gap of a join attempt is not for us (there is
+            // no session yet); it must not abort the join before its receive windows open.
+            State::Otaa(_) => Ok(Response::NoUpdate),
             State::Unjoined => Err(Error::NotJoined),
         }
     }
